@@ -458,8 +458,14 @@ def gen_chain(g, filters=0.0, roots=0.0, doc=None, small=False):
                     lit, fv = '1', 1.0
                 oc = r.randrange(6)
                 optext = ['==', '!=', '<', '<=', '>', '>='][oc]
-                text += '[?(@' + itext + optext + lit + ')]'
-                add_f((8, ispec, oc, [ord(ch) for ch in lit]))
+                if r.random() < 0.5:
+                    # blanks around the operator (Coq's FCS): `@.a > 1`, `@.a  >=1`, ...
+                    ga, gb = r.choice([0, 1, 1, 2]), r.choice([0, 1, 1, 3])
+                    text += '[?(@' + itext + ' ' * ga + optext + ' ' * gb + lit + ')]'
+                    add_f((12, ispec, ga, oc, gb, [ord(ch) for ch in lit]))
+                else:
+                    text += '[?(@' + itext + optext + lit + ')]'
+                    add_f((8, ispec, oc, [ord(ch) for ch in lit]))
 
                 def keep(x):
                     got = inner_reach(ispec, [x])
@@ -631,7 +637,7 @@ class C01(EvalProp):
                     doc, text, spec, cur = gen_chain(g, filters=fl, roots=0.25 if r.random() < 0.5 else 0.0)
                 if cur or r.random() < 0.25:
                     break
-            has_filter = any(st[0] in (7, 8, 9, 10, 11) for st in spec)      # C01_filter_retrieval: the text is Coq's fchain_path
+            has_filter = any(st[0] in (7, 8, 9, 10, 11, 12) for st in spec)      # C01_filter_retrieval: the text is Coq's fchain_path
             nodollar = not has_filter and spec[0][0] != 4 and r.random() < 0.25
             if nodollar:
                 # C18_dollar_optional: the same path without its leading $ (a first dot name loses its dot, .* becomes *)
